@@ -78,7 +78,7 @@ func jarNames(b *browser) []string {
 }
 
 func runCook(c *ctx) {
-	r := c.rng
+	_ = c.rng
 	nav := http.Header{"Sec-Fetch-Mode": {"navigate"}, "Sec-Fetch-Dest": {"document"}}
 	cfgs := []cookCfg{
 		{false, "", true, config.SameSiteLax, "https://app.example.com"},
